@@ -54,7 +54,8 @@ structure RdFrame (P : S → Prop) : Prop where
   fields : ∀ s pending rq recvQ got taken pres, P s →
     P { s with pending := pending, rq := rq, recvQ := recvQ, got := got, taken := taken, pres := pres }
   ev : ∀ s e, Ev.isRead e = true → P s → P { s with hist := s.hist ++ [e] }
-  closed : ∀ s v, P s → s.readOn = true → s.conn = true → P (socketClosed s v)
+  eofMark : ∀ s, P s → P { s with readOn := false, eofSeen := true }
+  closed : ∀ s v, P s → P (socketClosed s v)
 
 /-- the predicate does not look at what `onWriteCallback` itself changes -/
 structure WrFrame (P : S → Prop) : Prop where
@@ -62,17 +63,40 @@ structure WrFrame (P : S → Prop) : Prop where
     P { s with wq := wq, wire := wire, sendQ := sendQ, writeArmed := writeArmed }
   ev : ∀ s e, Ev.isWrite e = true → P s → P { s with hist := s.hist ++ [e] }
 
+theorem presentAny_of_frame {P} (hst : Stable P) (hf : RdFrame P) (s : S) (hs : P s) : P (presentAny s) := by
+  unfold presentAny
+  split
+  · rename_i k as _
+    apply hst.runActs
+    have h1 := hf.fields s s.pending s.rq (s.recvQ.drop k) s.got (s.taken ++ s.recvQ.take k) s.got.length hs
+    exact hf.ev _ (.recv s.recvQ k) rfl h1
+  · have h1 := hf.fields s s.pending s.rq [] s.got (s.taken ++ s.recvQ) s.got.length hs
+    exact hf.ev _ (.discard s.recvQ) rfl h1
+
 theorem present_of_frame {P} (hst : Stable P) (hf : RdFrame P) (s : S) (hs : P s) : P (present s) := by
   unfold present
   split
-  · split
-    · rename_i k as _
-      apply hst.runActs
-      have h1 := hf.fields s s.pending s.rq (s.recvQ.drop k) s.got (s.taken ++ s.recvQ.take k) s.got.length hs
-      exact hf.ev _ (.recv s.recvQ k) rfl h1
-    · have h1 := hf.fields s s.pending s.rq [] s.got (s.taken ++ s.recvQ) s.got.length hs
-      exact hf.ev _ (.discard s.recvQ) rfl h1
+  · exact presentAny_of_frame hst hf s hs
   · exact hs
+
+theorem closeTail_of_frame {P} (hst : Stable P) (hf : RdFrame P) (v : Bool) (s : S) (hs : P s) :
+    P (closeTail v s) := by
+  unfold closeTail
+  split
+  · exact hf.closed s v hs
+  · split
+    · exact hst.fire _ _ _ hs (hf.ev _ _ rfl hs)
+    · exact hst.fire _ _ _ hs (hf.ev _ _ rfl hs)
+
+theorem flushThen_of_frame {P} (hst : Stable P) (hf : RdFrame P) (k : S → S) (hk : ∀ s, P s → P (k s))
+    (s : S) (hs : P s) : P (flushThen s k) := by
+  unfold flushThen
+  split
+  · exact hk s hs
+  · simp only
+    split
+    · exact presentAny_of_frame hst hf s hs
+    · exact hk _ (presentAny_of_frame hst hf s hs)
 
 /-- the usual way to get `RdFrame.closed` -/
 theorem socketClosed_of {P} (hst : Stable P)
@@ -83,24 +107,17 @@ theorem socketClosed_of {P} (hst : Stable P)
   have h1 := hd s hs
   exact hst.fire _ _ _ h1 (hev _ _ _ h1)
 
-theorem onRead_of_frame {P} (hst : Stable P) (hf : RdFrame P) (s : S) (hs : P s)
-    (hr : s.readOn = true) : P (onRead s) := by
+theorem onRead_of_frame {P} (hst : Stable P) (hf : RdFrame P) (s : S) (hs : P s) : P (onRead s) := by
   unfold onRead
   split
   · rename_i p q _
     exact hf.fields s p q s.recvQ s.got s.taken s.pres hs
   · rename_i p q _
-    have h1 := hf.fields s p q s.recvQ s.got s.taken s.pres hs
-    simp only
-    split
-    · exact hf.closed _ _ h1 hr ‹_›
-    · exact hst.fire _ _ _ h1 (hf.ev _ _ rfl h1)
+    have h1 := hf.eofMark _ (hf.fields s p q s.recvQ s.got s.taken s.pres hs)
+    exact flushThen_of_frame hst hf _ (closeTail_of_frame hst hf false) _ h1
   · rename_i p q _
     have h1 := hf.fields s p q s.recvQ s.got s.taken s.pres hs
-    simp only
-    split
-    · exact hf.closed _ _ h1 hr ‹_›
-    · exact hst.fire _ _ _ h1 (hf.ev _ _ rfl h1)
+    exact flushThen_of_frame hst hf _ (closeTail_of_frame hst hf true) _ h1
   · rename_i d p q _
     exact present_of_frame hst hf _ (hf.fields s p q (s.recvQ ++ d) (s.got ++ d) s.taken s.pres hs)
 
@@ -174,6 +191,14 @@ theorem step_pres {P ok} (F : StepFrame P ok) (s : S) (op : Op) (hok : ok op) (h
     | wmax k => exact F.world s s.wq s.rq k s.eof hs
     | rd => simp only [step]; split; exact F.onRead s hs (by rename_i h; exact h.1); exact hs
     | wr => simp only [step]; split; exact F.onWrite s hs; exact hs
+    | rw =>
+        simp only [step]
+        by_cases hr : s.readOn = true ∧ (s.pending ≠ [] ∨ s.eof = true)
+        · rw [if_pos hr]
+          have h1 := F.onRead s hs hr.1
+          split; exact F.onWrite _ h1; exact h1
+        · rw [if_neg hr]
+          split; exact F.onWrite _ hs; exact hs
     | nop => exact hs
   · exact hs
 
